@@ -703,6 +703,9 @@ func (g *gen) genRequest() *Step {
 			st.set("Content-Type", ct)
 			st.Chunk = g.chunk()
 			st.Chunked = g.r.Chance(0.2)
+		} else if g.r.Chance(0.15) {
+			// no body, but framed as a chunked one of length zero (no announced length)
+			st.Chunked, st.Kind = true, "empty-chunked"
 		}
 		return st
 	}
